@@ -177,6 +177,9 @@ theorem expectHdr_nf : ∀ n s, meas s < n → NoFuel (expectHdr n s) := by
       cases u with
       | space => exact ih s' hlt
       | hdr ok => cases ok <;> trivial
+      | hdrA f t =>
+        show NoFuel (acceptHdr f t s')
+        rcases acceptHdr_id f t s' with h | h <;> rw [h] <;> trivial
       | _ => trivial
 
 theorem negotiateOne_nf (c : Cached) (res : NegRes) (s : Sess) : NoFuel (negotiateOne c res s) := by
